@@ -338,6 +338,13 @@ class CallMixin:
                     return ListV(r) if isinstance(r, list) else r
                 except Exception:      # pylint: disable=broad-except
                     pass
+        if name == 'join' and len(args) == 1 and isinstance(args[0], ListV) and len(args[0].items) == 1 and \
+                isinstance(args[0].items[0], Sym) and args[0].items[0].op == 'comp' and not args[0].items[0].args[2] and \
+                ((is_const(base) and isinstance(base, (bytes, bytearray)) and len(base) == 0) or (isinstance(base, BytesV) and not base.parts)):
+            # b''.join(f(x) for x in xs): the same bytes as the loop ``out += f(x)`` builds - one repetition of the element's parts
+            comp = args[0].items[0]
+            from .trace import Loop
+            return BytesV([('repeat', Loop('for', comp.args[1], None, [], node), as_bytes_parts(comp.args[0]))])
         if is_const(base) and isinstance(base, (str, bytes)) and name == 'join' and len(args) == 1 \
                 and isinstance(args[0], ListV):
             return Sym('join', base, args[0])
